@@ -16,12 +16,17 @@ HERE = os.path.dirname(os.path.dirname(os.path.abspath(__file__)))
 PY = os.path.join(HERE, ".venv", "bin", "python")
 NCPU = min(16, os.cpu_count() or 4)
 
+# The registered checks always analyse /repo's working tree.  VF_REPO is a testing aid only: tools/try_seeded.sh points
+# it at a scratch worktree carrying a seeded change so that mutants can be tried without touching /repo; evidence of
+# such a run goes to .work/evidence-alt/, never to evidence/.
+REPO = os.environ.get("VF_REPO", "/repo")
+
 EXIT_OK, EXIT_VIOLATION, EXIT_INCONCLUSIVE, EXIT_HARNESS = 0, 1, 2, 3
 
 
 def child_env(plain=False):
     env = dict(os.environ)
-    env["PYTHONPATH"] = "/repo:" + HERE
+    env["PYTHONPATH"] = REPO + ":" + HERE
     env["PYTHONHASHSEED"] = "0"
     env["PYTHONDONTWRITEBYTECODE"] = "1"
     if plain:
@@ -122,7 +127,7 @@ def cmd_check(prop, tier, only=None, verbose=True, match=None):
     seed = int(os.environ.get("VERIF_SEED", "0") or 0)
     subprocess.run([os.path.join(HERE, "setup.sh")], check=True, cwd=HERE, stdout=subprocess.DEVNULL)
     os.environ["VF_PLAIN"] = "1"
-    sys.path.insert(0, "/repo")
+    sys.path.insert(0, REPO)
     sys.path.insert(0, HERE)
     from vf import known
 
@@ -181,6 +186,33 @@ def cmd_check(prop, tier, only=None, verbose=True, match=None):
     log("%s %s: %d harnesses, %d shards, %d worker jobs on %d cores" % (
         prop, tier, len(harnesses), sum(len(j["shards"]) for j in jobs), len(jobs), NCPU))
     results = run_pool(jobs, workdir, tier, log)
+
+    # 2b. one retry of inconclusive shards with doubled budgets (the machine is mostly idle by now, so a solver
+    #     query that ran into its wall-clock limit under load gets a second chance; never turns a REFUTED into a pass)
+    retried = 0
+    if os.environ.get("VF_NO_RETRY") != "1":
+        rjobs, where = [], []
+        for ji, (job, res) in enumerate(zip(jobs, results)):
+            for ri, r in enumerate(res):
+                if r["outcome"] == "UNKNOWN":
+                    sh = dict(r["shard"])
+                    sh["_timeout"] = 2 * float(sh.get("_timeout", job.get("timeout", 60)))
+                    sh["_path_timeout"] = 2 * float(sh.get("_path_timeout", job.get("path_timeout", 30)))
+                    rj = dict(job)
+                    rj["shards"] = [sh]
+                    rjobs.append(rj)
+                    where.append((ji, ri))
+        if rjobs:
+            log("retrying %d inconclusive shards with doubled budgets" % len(rjobs))
+            rdir = os.path.join(workdir, "retry")
+            os.makedirs(rdir, exist_ok=True)
+            rres = run_pool(rjobs, rdir, tier, log)
+            for (ji, ri), rr in zip(where, rres):
+                if rr and rr[0]["outcome"] != "UNKNOWN":
+                    rr[0]["retried"] = True
+                    rr[0]["shard"] = dict(rr[0]["shard"], _timeout=results[ji][ri]["shard"].get("_timeout"), _path_timeout=results[ji][ri]["shard"].get("_path_timeout"))
+                    results[ji][ri] = rr[0]
+                    retried += 1
 
     # 3. aggregate
     per_h = {}
@@ -328,6 +360,7 @@ def cmd_check(prop, tier, only=None, verbose=True, match=None):
             "smt_seconds": round(sum(d["smt_seconds"] for d in per_h.values()), 2),
             "sample_replay_without_stubs": {"replayed": sample_replay.get("replayed", 0), "disagreements": len(sample_replay.get("bad", []))},
             "known_findings_reported": known_lines,
+            "shards_decided_on_retry": retried,
             "problems": problems,
             "exit_code": exit_code,
         },
@@ -338,7 +371,9 @@ def cmd_check(prop, tier, only=None, verbose=True, match=None):
         "wall_s": round(wall, 1),
         "violations": violations,
     }
-    with open(os.path.join(HERE, "evidence", prop + ".json"), "w") as f:
+    evdir = os.path.join(HERE, "evidence") if REPO == "/repo" else os.path.join(HERE, ".work", "evidence-alt")
+    os.makedirs(evdir, exist_ok=True)
+    with open(os.path.join(evdir, prop + ".json"), "w") as f:
         json.dump(evidence, f, indent=1)
     for pmsg in problems:
         log("PROBLEM: " + pmsg[:1200])
